@@ -88,6 +88,11 @@ let run_group lines =
   (* popped va_arg classes, for the generator's typing pre-scan (not part of the comparison) *)
   print_string ("!ORACLE poptypes p=" ^ Stdlib.String.concat "" (List.map (function
     | ATInt -> "i" | ATLong -> "l" | ATLLong -> "q" | ATPtr -> "p") st.ps_vs.va_pops) ^ " s=" ^ Buffer.contents kinds ^ "\n");
+  (* what the format names according to coq/Printf/NamedArgs.v (compared with gen.scan_args by the check) *)
+  print_string ("!ORACLE named k=" ^ (match named_args !fmt with
+    | None -> "none"
+    | Some ks -> "[" ^ Stdlib.String.concat "" (List.map (function
+        | KInt -> "i" | KLong -> "l" | KLLong -> "q" | KPtr -> "p" | KStr -> "s") ks) ^ "]") ^ "\n");
   if !items <> [] then begin
     let its = List.rev !items in
     let rendered = List.concat (List.map (function `Lit b -> b | `Dir (d, _) -> render d) its) in
